@@ -22,7 +22,7 @@ ASSUMPTIONS = ["no order is demanded between publication and Change handlers, no
                "Change events for sibling switches flipped by a rule are not demanded; for BLOBs only 'changed bytes => Change'",
                "Element._value is read inside handler probes (the public .value would itself raise a Read event)"]
 REQUIRED_EVENTS = ["operations", "multi_instance_cases", "write_handler_calls", "change_handler_calls", "read_handler_calls", "coroutine_handler_runs",
-                   "vetoed_writes", "publications_observed", "operations_cut_short_by_a_failing_read_handler", "cases_with_an_overriding_subclass", "cases_subscribing_through_held_definition_objects"]
+                   "vetoed_writes", "publications_observed", "operations_cut_short_by_a_failing_read_handler", "cases_with_an_overriding_subclass", "cases_with_the_name_from_an_overridden_property", "cases_subscribing_through_held_definition_objects"]
 
 
 QUICK_SHARDS = 4
@@ -241,8 +241,15 @@ async def execute(ctx, case, spec, handlers, ops, ninst=1, targets=None, order=T
     from indi.routing import Router
     trace = []
     state = State()
+    ctor_name = {}
     if ninst > 1:
         spec = dict(spec, no_class_name=True)     # the name comes from the constructor: Driver(name=...)
+    elif case["i"] % 3 == 1:
+        # the driver's public name comes from a `name` property its class overrides (derived from a serial number, say); what
+        # the constructor is given - nothing, or an internal label - is not what the device is called
+        spec = dict(spec, name_style="property")
+        ctor_name["DEV"] = None if case["i"] % 2 else "unit-7"
+        ctx.count("cases_with_the_name_from_an_overridden_property")
     cls = build_driver(spec, handlers, trace, state, override=bool(case.get("override")), held_references=bool(case.get("held")))
     if case.get("held"):
         ctx.count("cases_subscribing_through_held_definition_objects")
@@ -252,7 +259,7 @@ async def execute(ctx, case, spec, handlers, ops, ninst=1, targets=None, order=T
     names = ["DEV", "DEV_B"][:ninst]
     drvs = {}
     for nm in (names if order else list(reversed(names))):
-        drvs[nm] = cls(name=nm, router=router)
+        drvs[nm] = cls(name=ctor_name.get(nm, nm), router=router)
     rec = devmon.RecClient()
     router.register_client(rec)
     for nm in names:
